@@ -326,14 +326,14 @@ func scriptAuthz(t *rapid.T, spec Spec) *script {
 	s := rapid.IntRange(0, NAcct-1).Draw(t, "granter")
 	g := rapid.IntRange(0, 9).Draw(t, "grantee")
 	li, pr := routeTo(t, spec, c, to)
-	gk := rapid.SampledFrom([]int{0, 0, 0, 1, 2}).Draw(t, "gk")
+	gk := rapid.SampledFrom([]int{0, 0, 0, 0, 1, 2}).Draw(t, "gk")
 	lim := rapid.SampledFrom([]int64{0, 100, 1000, 1000}).Draw(t, "lim")
 	pref := 3
 	if pr.K == KV1 {
 		pref = 2
 	}
 	grant := Op{K: "grant", C: c, L: li, S: s, G: g, Sig: s, GK: gk, Lim: lim, Pref: pref,
-		AR:   rapid.SampledFrom([]int{0, 0, 1, 2}).Draw(t, "ar"),
+		AR:   rapid.SampledFrom([]int{0, 1, 2, 3}).Draw(t, "ar"),
 		AMem: rapid.IntRange(0, 2).Draw(t, "amem"),
 		Exp:  rapid.SampledFrom([]int{0, 0, 30, 3600}).Draw(t, "exp"),
 	}
@@ -372,9 +372,9 @@ func scriptAuthz(t *rapid.T, spec Spec) *script {
 		if lim > 0 {
 			op.Amt = rapid.Int64Range(1, lim/3).Draw(t, "withinlim")
 		}
-		// ... with, in a third of the cases, exactly one deviation
-		if rapid.IntRange(0, 2).Draw(t, "deviate") == 0 {
-			switch rapid.IntRange(0, 8).Draw(t, "execdev") {
+		// ... with, in half of the cases, exactly one deviation
+		if rapid.Bool().Draw(t, "deviate") {
+			switch rapid.SampledFrom([]int{0, 1, 2, 3, 4, 5, 5, 5, 6, 6, 7, 8}).Draw(t, "execdev") {
 			case 0:
 				op.AM = 1 // entire balance (MaxUint256 sentinel for MsgTransfer)
 			case 1:
